@@ -989,7 +989,8 @@ theorem usys_matches_raceRun_no_tick {β : Type} (s0 : AbsState) (t : Int) (prb 
     ((twoClients s0 t prb g W gW aW).run (raceSchedule 0 0 0)).abs =
       (raceRun (probe prb none) 1 t W (wClock W aW t) t s0).1 := by
   have := (usys_two_clients_retry_iff s0 t prb g W gW aW 0 0 0 r0 u0 hrow0 h ⟨Int.le_refl _, Int.le_refl _, Int.le_refl _⟩).2 ⟨rfl, rfl, rfl⟩
-  simpa using this
+  simp only [Int.add_zero] at this
+  exact this
 
 /-- the hypothesis "no tick in between" holds in a concrete run, and a run with a tick (5 s between the probe's `Get` and
 the keepalive's `Update`) differs from the `raceRun … 1` history in the ready time of the re-queued probe: the system model
@@ -1007,6 +1008,39 @@ example :
   have := (usys_two_clients_retry_iff abaState 100 prb (fun _ => "") W (fun _ => "") 0 5 0 0 abaStale 5 aba_witness.1 (by decide)
     ⟨by decide, by decide, by decide⟩).1 (by simpa [wClock, Call.clockAtArrival] using heq)
   exact absurd this.1 (by decide)
+
+/-- non-vacuity of `usys_probe_retry_any`: the two-client system of `twoClients` — its second client (one `Update` with a
+stable callback) is `ProgStable`, the store is keyed and holds the probed server, the probe has budget left -/
+example :
+    let prb : Probe := ⟨abaStale.addr, 10481, .details, 0, 2⟩
+    let W := Call.updateServer { abaStale with refreshedAt := some 9 } fun s => some { s with refreshedAt := some 9 }
+    let u := twoClients abaState 100 prb (fun _ => "") W (fun _ => "") 0
+    (∃ c, u.clients[0]? = some c ∧ c.prog = rendered (probe prb none) (fun _ => "") ∧ c.started = true ∧ c.dead = false) ∧
+    u.abs.getRow prb.addr = some ⟨abaStale, 5⟩ ∧ prb.retries < prb.maxRetries ∧ RowInv.Keyed u.abs ∧
+    (∀ (j : Nat) (c' : UClient), j ≠ 0 → u.clients[j]? = some c' → VerMono.ProgStable c'.prog) := by
+  intro prb W u
+  refine ⟨⟨_, rfl, rfl, rfl, rfl⟩, aba_witness.1, by decide, abaState_keyed, ?_⟩
+  intro j c' hj hc'
+  match j, hj with
+  | 1, _ =>
+    have : c' = { prog := .call W fun b => .ret ((fun _ => "") b), started := true, arrival := 0 } := by
+      simp only [u, twoClients, List.getElem?_cons_succ, List.getElem?_cons_zero, Option.some.injEq] at hc'; exact hc'.symm
+    subst this
+    exact VerMono.AllCalls.call _ _ ⟨fun s r h => by cases h; exact ⟨rfl, rfl⟩, trivial⟩ fun _ => VerMono.AllCalls.ret _
+  | j + 2, _ => simp [u, twoClients] at hc'
+
+/-- the success and final-failure branches in the system model (two scheduled calls each): `C13Run.usys_two_clients_success`
+(`= raceRun (probe prb (some res)) 2 …` for any ticks: the probe's own copy is stamped with the clock value at its `Get`, the
+conflict callback with the one at commit) and `C13Run.usys_two_clients_failure` (`= raceRun (probe prb none) 1 …` for any
+ticks: the failure branch reads no clock).  With no tick in between, the success run is the history of `probe_success_race`: -/
+theorem usys_success_matches_raceRun_no_tick {β : Type} (s0 : AbsState) (t : Int) (prb : Probe) (res : ProbeResult)
+    (g : ProbeEnd → String) (W : Call β) (gW : β → String) (aW : Int) (r0 : Server) (u0 : Int)
+    (hrow0 : s0.getRow prb.addr = some ⟨r0, u0⟩) :
+    ((twoClientsO s0 t prb (some res) g W gW aW).run (raceSchedule2 0 0)).abs =
+      (raceRun (probe prb (some res)) 1 t W (wClock W aW t) t s0).1 := by
+  have := usys_two_clients_success s0 t prb res g W gW aW 0 0 r0 u0 hrow0
+  simp only [Int.add_zero] at this
+  rw [this, raceRun_success_two_eq_one s0 t _ prb res r0 u0 W hrow0]
 
 /-! ## the retry delay table and its scope (reviewer W5) -/
 
